@@ -190,17 +190,17 @@ Proof.
   unfold wf. destruct v as [n d]. cbn [snd]. intro Hd. unfold cand_lo, dec_rat, rle. cbn [fst snd].
   destruct x as [|px|px]; cbn [Z.to_N]; rewrite ?N.pow_0_r, ?N.mul_1_r.
   - pose proof (N.mul_div_le n d Hd) as H1. pose proof (N.mul_succ_div_gt n d Hd) as H2. rewrite <- N.add_1_r in H2.
-    set (q := n / d) in *. split; apply N.leb_le; lia.
+    set (q := n / d) in *. cbn [fst snd]. rewrite ?N.mul_1_r. split; apply N.leb_le; lia.
   - set (P := 10 ^ N.pos px).
     assert (d * P <> 0) as H0 by (apply N.neq_mul_0; split; [exact Hd | apply N.pow_nonzero; discriminate]).
     pose proof (N.mul_div_le n _ H0) as H1. pose proof (N.mul_succ_div_gt n _ H0) as H2. rewrite <- N.add_1_r in H2.
-    set (q := n / (d * P)) in *.
+    set (q := n / (d * P)) in *. cbn [fst snd]. rewrite ?N.mul_1_r.
     split; apply N.leb_le.
     + replace (q * P * d) with (d * P * q) by lia. lia.
     + replace ((q + 1) * P * d) with (d * P * (q + 1)) by lia. lia.
   - set (P := 10 ^ N.pos px).
     pose proof (N.mul_div_le (n * P) d Hd) as H1. pose proof (N.mul_succ_div_gt (n * P) d Hd) as H2. rewrite <- N.add_1_r in H2.
-    set (q := n * P / d) in *. split; apply N.leb_le; lia.
+    set (q := n * P / d) in *. cbn [fst snd]. split; apply N.leb_le; lia.
 Qed.
 
 Lemma dec_rat_mono a b x : a <= b -> rle (dec_rat a x) (dec_rat b x) = true.
